@@ -1,5 +1,6 @@
 """Call graph over crate-local bodies: resolved calls, class-hierarchy analysis for
 unresolved trait calls, and mentioned fn items / closures."""
+import re
 from collections import defaultdict
 
 
@@ -7,6 +8,8 @@ class CallGraph:
     def __init__(self, prog):
         self.prog = prog
         self.edges = defaultdict(set)      # body path -> set(body path)
+        self.static_edges = defaultdict(set)   # body path -> static initialiser bodies it may trigger
+        self.cha = defaultdict(set)        # body path -> set(body path) added by class-hierarchy analysis only
         self.ext = defaultdict(set)        # body path -> set(external callee name)
         self.unresolved = defaultdict(set)
         trait_impls = defaultdict(list)    # (trait, method) -> [body]
@@ -50,7 +53,7 @@ class CallGraph:
         if tr:
             impls = self.trait_impls.get((tr, name), [])
             for ib in impls:
-                self.edges[b.path].add(ib.path)
+                self.cha[b.path].add(ib.path)
             # trait default method body (local trait)
             if f.get("local") and f["path"] in local_paths:
                 self.edges[b.path].add(f["path"])
@@ -66,6 +69,9 @@ class CallGraph:
     def _scan_op(self, b, o, local_paths):
         if o["k"] == "const" and "fn" in o["c"]:
             self._add_fn(b, o["c"]["fn"], local_paths)
+        if o["k"] == "const" and o["c"].get("static") in local_paths:
+            # mentioning a static may run its (lazy) initialiser
+            self.static_edges[b.path].add(o["c"]["static"])
 
     def _scan_rv(self, b, rv, local_paths):
         k = rv["k"]
@@ -80,21 +86,82 @@ class CallGraph:
             self._scan_op(b, rv["a"], local_paths)
             self._scan_op(b, rv["b"], local_paths)
 
-    def reach(self, entries):
+    def _mentions(self, path):
+        """type names mentioned by a body: local types, call generics/arg types"""
+        b = self.prog.body(path)
+        if b is None:
+            return ""
+        key = path
+        if key not in self._mention_cache:
+            parts = [l["ty"] for l in b.locals]
+            for bb, t in b.calls(include_cleanup=True):
+                f = t["fn"]
+                parts += f.get("generics") or []
+                parts += f.get("resolved_generics") or []
+            self._mention_cache[key] = " ".join(parts)
+        return self._mention_cache[key]
+
+    def reach_split(self, entries):
+        """(dynamic, init_only): bodies reachable without entering static initialisers, and bodies reachable only
+        through a static (lazy) initialiser — the latter run once on constant data, independent of any input."""
+        full = self.reach(entries, statics=True)
+        text = " ".join(self._mentions(x) for x in full)
+        dyn = self.reach(entries, statics=False, extra_mentions=text)
+        return dyn, full - dyn
+
+    def reach(self, entries, rta=True, statics=True, extra_mentions=""):
+        """Reachable bodies.  Resolved calls and mentioned fn items/closures are followed always; targets added by
+        class-hierarchy analysis (unresolved trait calls on generic/dyn receivers) are followed only if every
+        crate-local type named in the impl's self type is mentioned in the types of an already reachable body
+        (rapid type analysis, iterated to a fixpoint)."""
+        if not hasattr(self, "_mention_cache"):
+            self._mention_cache = {}
+        local_adts = set(self.prog.adts)
         seen = set()
+        pending_cha = set()
+        mentioned = [extra_mentions]
         st = [e for e in entries]
-        while st:
-            x = st.pop()
-            if x in seen:
+        while True:
+            while st:
+                x = st.pop()
+                if x in seen:
+                    continue
+                seen.add(x)
+                mentioned.append(self._mentions(x))
+                for y in self.edges.get(x, ()):
+                    if y not in seen:
+                        st.append(y)
+                if statics:
+                    for y in self.static_edges.get(x, ()):
+                        if y not in seen:
+                            st.append(y)
+                for y in self.cha.get(x, ()):
+                    if y not in seen:
+                        pending_cha.add(y)
+            if not rta:
+                st = [y for y in pending_cha if y not in seen]
+                pending_cha = set()
+                if not st:
+                    break
                 continue
-            seen.add(x)
-            for y in self.edges.get(x, ()):
-                if y not in seen:
+            text = " ".join(mentioned)
+            progressed = False
+            for y in sorted(pending_cha):
+                if y in seen:
+                    continue
+                b = self.prog.body(y)
+                st_ty = (b.impl_self or "") if b is not None else ""
+                need = [a for a in local_adts if re.search(r"(?<![\w:])%s(?![\w])" % re.escape(a), st_ty)]
+                if all(re.search(r"(?<![\w:])%s(?![\w])" % re.escape(a), text) for a in need):
                     st.append(y)
+                    progressed = True
+            pending_cha = {y for y in pending_cha if y not in seen and y not in st}
+            if not progressed:
+                break
         return seen
 
     def callers(self, path):
-        return sorted(a for a, bs in self.edges.items() if path in bs)
+        return sorted(set(a for a, bs in self.edges.items() if path in bs) | set(a for a, bs in self.cha.items() if path in bs))
 
     def path_to(self, entries, target):
         prev = {}
@@ -109,7 +176,7 @@ class CallGraph:
                     out.append(x)
                     x = prev[x]
                 return out[::-1]
-            for y in sorted(self.edges.get(x, ())):
+            for y in sorted(self.edges.get(x, set()) | self.cha.get(x, set()) | self.static_edges.get(x, set())):
                 if y not in prev:
                     prev[y] = x
                     q.append(y)
